@@ -41,6 +41,10 @@ Driver protocol (command `c13`, see `driverLine` at the end of the file):
 
   parse  <cfg> <last_enacted> <hex>            one log file
   replay <cfg> <last_enacted|auto> <hex> ...   several files, in directory order
+  replaylast <cfg> <last_enacted|auto> <hex> ...   same replay, answer is only
+                                               "last=" <n> " cfg=" <cfg>: what harness/src/c13.rs
+                                               observes of `Db::open` (hooks `Db::verif_last_enacted`,
+                                               `Db::verif_table_cfg`)
 
   <cfg>  ::= <v4> { "/" <col> }          v4 = 1 iff metadata.version <= 4, else 0
   <col>  ::= "b"                          btree column
@@ -768,6 +772,16 @@ def driverLine (args : List String) : String :=
         let res := replay crc32 cfg last files
         String.join (res.reports.map (fun rep => renderReport rep ++ " | ")) ++
           s!"last={res.lastEnacted} cfg={renderCfg res.cfg}"
+      | none => "bad-op"
+    | _, _ => "bad-op"
+  | "replaylast" :: cfg :: last :: hexes =>
+    -- what the harness can observe of the real `Db::open`
+    match parseCfg cfg, hexes.mapM parseHex with
+    | some cfg, some files =>
+      match (if last = "auto" then some (initialLastEnacted files) else last.toNat?) with
+      | some last =>
+        let res := replay crc32 cfg last files
+        s!"last={res.lastEnacted} cfg={renderCfg res.cfg}"
       | none => "bad-op"
     | _, _ => "bad-op"
   | _ => "bad-op"
